@@ -211,6 +211,17 @@ def table_agreement(p, item, tier, seed):
         import mockturtle_wrapper as mw
         from cirbo.minimization import subcircuit as sc
 
+        # leaf patterns: bit k of the pattern of leaf j is bit j of k, for every documented cut size and beyond
+        for size in range(0, 9):
+            pats = sc._generate_inputs_tt(size)
+            p.case(("leaf-patterns", size), sample=f"_generate_inputs_tt({size})" if size == 6 else None)
+            wrong = len(pats) != size or any(not isinstance(v, int) or v != sum(((k >> j) & 1) << k for k in range(1 << size)) for j, v in enumerate(pats))
+            p.queries["sat" if wrong else "unsat"] += 1
+            if wrong:
+                p.violation("table:subcircuit.leaf-patterns", f"_generate_inputs_tt({size}) is not the table of the {size} projections: {[hex(v) for v in pats][:4]}",
+                            REPLAY_PRELUDE + "from cirbo.minimization import subcircuit as sc\n" + f"size={size}\npats=sc._generate_inputs_tt(size)\n"
+                            "bad = len(pats)!=size or any(v != sum(((k>>j)&1)<<k for k in range(1<<size)) for j,v in enumerate(pats))\nprint(bad); sys.exit(1 if bad else 0)\n")
+                break
         pool = [getattr(G, n) for n in ["NOT", "AND", "NAND", "OR", "NOR", "XOR", "NXOR", "GEQ", "LT", "LEQ", "GT"]]
         rnd = random.Random(4242 + seed)
         names = ["a", "b", "zz", "k1", "q", "m7", "w", "x0", "x1", "n", "g3", "h", "t", "u2", "v", "p", "r", "s9", "c", "d"]
